@@ -47,7 +47,7 @@ var interpStd = map[string]bool{
 	"unicode/utf8": true, "sort": true, "slices": true, "cmp": true, "maps": true,
 	"math": true, "strings": true, "bytes": true, "strconv": true, "unicode": true,
 	"internal/byteorder": true, "internal/bytealg": true, "internal/stringslite": true,
-	"container/heap": true, "iter": true, "internal/itoa": true, "math/rand": false,
+	"container/heap": true, "iter": true, "io": true, "internal/itoa": true, "math/rand": false,
 }
 
 // packages whose init() is run
